@@ -10,14 +10,14 @@ open Reduino Reduino.Toolchain
 /-- what the code does, for ANY registry: accepted iff the platform is known and the LAST platform listing
     the board is that platform -/
 theorem validate_spec (reg : Registry) (p b : String) :
-    validate reg p b = .ok ↔ (p ∈ reg.map (·.1) ∧ lastOwner reg b = some p) := by
-  sorry
+    validate reg p b = .ok ↔ (p ∈ reg.map (·.1) ∧ lastOwner reg b = some p) :=
+  Lemmas.C13.validate_ok_iff reg p b
 
 /-- on a partitioned registry, acceptance is exactly "registered for that platform (and for no other)" -/
 theorem validate_exact (reg : Registry) (hp : Partition reg) (p b : String) :
     validate reg p b = .ok ↔
-      ((∃ bs, (p, bs) ∈ reg ∧ b ∈ bs) ∧ ∀ q cs, (q, cs) ∈ reg → b ∈ cs → q = p) := by
-  sorry
+      ((∃ bs, (p, bs) ∈ reg ∧ b ∈ bs) ∧ ∀ q cs, (q, cs) ∈ reg → b ∈ cs → q = p) :=
+  Lemmas.C13.validate_exact' reg hp p b
 
 /-- exactness on the registry extracted from the current source -/
 theorem validate_exact_current (p b : String) :
@@ -34,15 +34,18 @@ theorem every_board_one_platform (b : String) (p q : String) (bs cs : List Strin
 theorem dedup_spec (libs : List Str) :
     (dedupLibs libs []).Nodup ∧ (∀ l, l ∈ dedupLibs libs [] ↔ (l ∈ libs ∧ l ≠ [])) ∧
     List.Sublist (dedupLibs libs []) libs := by
-  sorry
+  obtain ⟨h1, h2, t, h3, h4⟩ := Lemmas.C13.dedup_gen libs [] List.nodup_nil
+  refine ⟨h1, fun l => ?_, ?_⟩
+  · rw [h2 l]; simp
+  · rw [h3]; simpa using h4
 
 /-- de-duplicating an already clean list is the identity -/
 theorem dedup_id (libs : List Str) (hn : libs.Nodup) (he : ∀ l ∈ libs, l ≠ []) : dedupLibs libs [] = libs := by
-  sorry
+  rw [Lemmas.C13.dedup_id_gen libs [] hn (fun l h => ⟨he l h, by simp⟩)]; rfl
 
 /-- the environment name never contains a character that could end the section header -/
-theorem env_name_safe (board : Str) : ∀ c ∈ sanitize board, isWord c = true := by
-  sorry
+theorem env_name_safe (board : Str) : ∀ c ∈ sanitize board, isWord c = true :=
+  Lemmas.C13.sanitizeGo_word board false
 
 /-- a value that an INI reader returns unchanged: no line break, no surrounding blanks -/
 def WfValue (v : Str) : Prop := (∀ c ∈ v, c ≠ '\n' ∧ c ≠ '\r') ∧ strip v = v
@@ -60,9 +63,14 @@ theorem ini_roundtrip (c : Cfg) (hport : WfValue c.port) (hplat : WfValue c.plat
             ("framework".toList, "arduino".toList), ("upload_port".toList, c.port) ] ++
           (if dedupLibs c.libs [] = [] then [] else [("lib_deps".toList, libv)])) ] ∧
       (dedupLibs c.libs [] ≠ [] → valueItems libv = dedupLibs c.libs []) := by
-  sorry
+  refine Lemmas.C13.roundtrip_core c hport.2 hplat.2 hboard.2 ?_
+  intro l hl
+  have hm := ((dedup_spec c.libs).2.1 l).1 hl
+  rcases hlibs l hm.1 with h | h
+  · exact absurd h hm.2
+  · exact ⟨h.1.2, h.2.1, h.2.2.1, h.2.2.2, fun ch hc => (h.1.1 ch hc).1⟩
 
 example : WfValue "/dev/ttyACM0".toList ∧ WfLib "Servo".toList := by
-  sorry
+  refine ⟨⟨by decide, by decide⟩, ⟨by decide, by decide⟩, by decide, by decide, by decide⟩
 
 end Reduino.Props.C13
